@@ -26,19 +26,28 @@ import warnings
 from pathlib import Path
 
 import lib
+from translate import annot as tr_annot
 
 PROP = "C13"
 CORPUS = lib.VERIF / "harness" / "corpus" / "C13.json"
 
 PRELUDE = """import typing, collections.abc
 from typing import Any, Optional, Union, List, Dict, Tuple, Type, Callable, Literal, Annotated, Final, ClassVar, Sequence, Set, Iterable, Mapping
+from typing import NewType, TypedDict, Protocol, TypeVar
 from typing_extensions import Unpack
 class A: pass
 class B(A): pass
+class filter: pass          # a module-level class that shadows a builtin
+NT = NewType("NT", int)
+class TD(TypedDict):
+    a: int
+class P(Protocol):
+    def m(self) -> int: ...
+T = TypeVar("T")
 """
 
 # class codes shared with the Coq model
-CLASSES = {"int": 1, "str": 1002, "bytes": 3, "float": 4, "A": 5, "B": 6, "object": 7}
+CLASSES = {"int": 1, "str": 1002, "bytes": 3, "float": 4, "A": 5, "B": 6, "object": 7, "filter": 9, "NT": 30, "TD": 31, "P": 32, "T": 33}
 GENERICS = {  # code -> (arity, spellings)
     20: (1, ["list", "List"]),
     22: (1, ["set", "Set"]),
@@ -47,7 +56,7 @@ GENERICS = {  # code -> (arity, spellings)
     1001: (2, ["dict", "Dict"]),
     26: (2, ["Mapping"]),
 }
-CODE_OF_TYPE = {"int": 1, "str": 1002, "bytes": 3, "float": 4, "A": 5, "B": 6, "object": 7, "list": 20, "set": 22, "Sequence": 24,
+CODE_OF_TYPE = {"filter": 9, "P": 32, "int": 1, "str": 1002, "bytes": 3, "float": 4, "A": 5, "B": 6, "object": 7, "list": 20, "set": 22, "Sequence": 24,
                 "Iterable": 25, "dict": 1001, "Mapping": 26, "tuple": 1000, "type": 8}
 LITS = {0: "0", 1: "1", 2: "2", -1: "-1", 10: '"a"', 11: '"b"', 20: "True", 30: 'b"x"'}
 LIT_OBJ = {0: 0, 1: 1, 2: 2, -1: -1, 10: "a", 11: "b", 20: True, 30: b"x"}
@@ -218,15 +227,14 @@ def walk(e):
 
 
 def guard_clauses(e):
+    """no guard clause is left for the routes on the repaired tree (the three divergent classes were repaired)"""
+    return []
+
+
+def form_tags(e):
+    """forms that used to diverge before the repairs of the AST route (kept in the histogram)"""
     ks = {x[0] for x in walk(e)}
-    out = []
-    if "EStarTuple" in ks:
-        out.append("has_star_unpack")
-    if "ELitNested" in ks:
-        out.append("has_nested_literal")
-    if ks & {"EFinal", "EClassVar"}:
-        out.append("has_final_classvar")
-    return out
+    return [t for t, c in (("star", "EStarTuple" in ks), ("nested_literal", "ELitNested" in ks), ("final_classvar", bool(ks & {"EFinal", "EClassVar"}))) if c]
 
 
 def evaluable(e):
@@ -324,10 +332,24 @@ def encode_value(v):
 
     def cls_code(t):
         n = getattr(t, "__name__", str(t))
+        if n == "filter" and getattr(t, "__module__", "") == "builtins":
+            return 990  # the builtin, not the module's own class
         return CODE_OF_TYPE.get(n)
 
+    from pyanalyze.value import NewTypeValue, TypedDictValue, TypeVarValue
+
+    if isinstance(v, NewTypeValue):
+        return ("typed", 30) if v.name == "NT" else ("other", "newtype:" + v.name)
+    if isinstance(v, TypedDictValue):
+        if list(v.items) == ["a"] and encode_value(v.items["a"].typ) == ("typed", 1) and v.items["a"].required:
+            return ("typed", 31)
+        return ("other", "typeddict:" + str(v)[:50])
+    if isinstance(v, TypeVarValue):
+        return ("typed", 33) if getattr(v.typevar, "__name__", "") == "T" and not v.is_paramspec else ("other", "typevar:" + str(v)[:40])
+
     if isinstance(v, AnyValue):
-        return ("any",)
+        # Any[error] is what an annotation that was reported as invalid evaluates to
+        return ("err",) if v.source.name == "error" else ("any",)
     if isinstance(v, KnownValue):
         if v.val is None:
             return ("none",)
@@ -371,6 +393,11 @@ def encode_value(v):
             return ("other", str(v)[:60])
         return ("typed", c)
     return ("other", type(v).__name__ + ":" + str(v)[:60])
+
+
+def seal(c):
+    """an error anywhere is a diagnostic of the whole annotation"""
+    return ("err",) if contains(c, "err") else c
 
 
 def has_other(c):
@@ -417,7 +444,7 @@ def impl_routes(exprs_src):
         def show_error(self, message, error_code=None, node=None):
             self.errors.append(message)
 
-    ns = {}
+    ns = {"__name__": "c13_prelude"}  # otherwise classes defined by exec() claim to live in `builtins`
     exec(PRELUDE, ns)
     out = []
 
@@ -429,7 +456,7 @@ def impl_routes(exprs_src):
             return ("crash",)
         if c.errors:
             return ("err",)
-        return encode_value(v)
+        return seal(encode_value(v))
 
     for src in exprs_src:
         r = {}
@@ -465,7 +492,15 @@ def impl_routes(exprs_src):
                 elif codes:
                     out[i][tag] = ("err",)
                 else:
-                    out[i][tag] = encode_value(v)
+                    out[i][tag] = seal(encode_value(v))
+    # an error found while evaluating a *string* annotation is reported at the position inside the
+    # string (line 1 of the module), so it cannot be attributed by line: re-run such cases alone
+    for i in ok:
+        if "*" in exprs_src[i] and out[i]["visstr"] != ("err",):
+            code = PRELUDE + f"def f(x: {exprs_src[i]!r}):\n    _v = x\n"
+            tree, errors, mod = run_visitor(code)
+            if any(e["code"].name in ("invalid_annotation", "internal_error") for e in errors):
+                out[i]["visstr"] = ("err",)
     return out
 
 
@@ -632,6 +667,37 @@ def decode_sparams(t):
 # ---- calls --------------------------------------------------------------------
 
 CALL_ARGS = ["", "1", "1, 2", "1, 2, 3", "a=1", "1, b=2", "__p=1", "a=1, b=2", "*(1, 2)", "**{'a': 1}", "1, 'x'", "d=1", "1, e=None"]
+# the same calls as Binder.Bind.rawarg lists
+CALL_RAW = {
+    "": [], "1": ["RPos"], "1, 2": ["RPos", "RPos"], "1, 2, 3": ["RPos", "RPos", "RPos"], "a=1": [("RKw", "a")], "1, b=2": ["RPos", ("RKw", "b")],
+    "__p=1": [("RKw", "__p")], "a=1, b=2": [("RKw", "a"), ("RKw", "b")], "*(1, 2)": [("RStarLit", 2)], "**{'a': 1}": [("RKwLit", ["a"])],
+    "1, 'x'": ["RPos", "RPos"], "d=1": [("RKw", "d")], "1, e=None": ["RPos", ("RKw", "e")],
+}
+
+
+def raw_term(a):
+    out = []
+    for r in CALL_RAW[a]:
+        if r == "RPos":
+            out.append("Bind.RPos")
+        elif r[0] == "RKw":
+            out.append(f"(Bind.RKw {lib.cn(NAMES_CODE(r[1]))})")
+        elif r[0] == "RStarLit":
+            out.append(f"(Bind.RStarLit {r[1]}%nat)")
+        elif r[0] == "RKwLit":
+            out.append("(Bind.RKwLit " + lib.clist([lib.cn(NAMES_CODE(n)) for n in r[1]]) + ")")
+    return lib.clist(out)
+
+
+def model_calls(headers, calls):
+    """-> [(binds in the defining scope, binds from an importer)]"""
+    terms = []
+    for h, a in calls:
+        lst = lib.clist([sparam_term(p) for p in h[0] if p is not None])
+        b = lambda f: f"(match {f} {lst} {raw_term(a)} with Some _ => true | None => false end)"
+        terms.append(f"({b('call_in_defining_scope')}, {b('call_from_importer')})")
+    hdr = HEADER.replace("PV.Annot.DefSig.", "PV.Annot.DefSig PV.Annot.Calls.\nRequire PV.Binder.Bind.")
+    return lib.coq_eval(hdr, terms, name="c13c", jobs=6)
 
 
 def impl_calls(headers_src, rng, d: Path, tag):
@@ -664,7 +730,7 @@ def impl_calls(headers_src, rng, d: Path, tag):
 # ---------------------------------------------------------------------------
 
 HEADER = ("From Coq Require Import NArith ZArith List Bool. Import ListNotations.\n"
-          "Require Import PV.Annot.Routes PV.Annot.DefSig.\nUnset Printing Records.")
+          "Require Import PV.Annot.Forms PV.Gen.Annot PV.Annot.Routes PV.Annot.DefSig.\nUnset Printing Records.")
 
 
 def model_routes(exprs):
@@ -694,13 +760,21 @@ def model_sigs(headers):
 
 
 def gen_files():
-    return {}
+    return {"Annot.v": tr_annot.translate(str(lib.REPO))}
 
 
 def load_corpus():
     if CORPUS.exists():
         d = json.loads(CORPUS.read_text())
         return [norm_expr(e) for e in d.get("exprs", [])]
+    return []
+
+
+def load_corpus_headers():
+    if CORPUS.exists():
+        d = json.loads(CORPUS.read_text())
+        return [([None if p is None else (p[0], p[1], bool(p[2]), None if p[3] is None else norm_expr(p[3])) for p in ps], None if ret is None else norm_expr(ret))
+                for ps, ret in d.get("headers", [])]
     return []
 
 
@@ -715,11 +789,22 @@ def jsonable(x):
 def run(tier: str, replay: str | None = None):
     rep = lib.Report(PROP, tier, "proof")
     rng = random.Random(lib.seed() * 7901 + 13)
-    proof = lib.prove(PROP, gen_files(), thorough=(tier == "thorough"))
-    model_ok = not any("build failed" in b for b in proof.broken)
-    if not model_ok:
-        ok, _ = lib.coq_make(["theories/Annot/DefSig.vo"])
-        model_ok = ok
+    broken_translation = None
+    proof = None
+    try:
+        gen = gen_files()
+    except tr_annot.TranslateError as ex:
+        broken_translation = str(ex)
+        gen = None
+    model_ok = False
+    # when the translator fails the model is not run (a stale Gen/Annot.v could describe another tree):
+    # known findings can then not be attributed and are reported like any other failing input
+    if gen is not None:
+        proof = lib.prove(PROP, gen, thorough=(tier == "thorough"))
+        model_ok = not any("build failed" in b for b in proof.broken)
+        if not model_ok:
+            ok, _ = lib.coq_make(["theories/Annot/DefSig.vo"])
+            model_ok = ok
     kf = lib.load_known_findings(PROP)
     findings_text = {f["id"]: f["what"] for f in kf["findings"]}
     quick = tier == "quick"
@@ -745,8 +830,9 @@ def run(tier: str, replay: str | None = None):
         hr = random.Random(lib.seed() * 17 + 3)
         want = 160 if quick else 1500
         pre_rendered = []
+        pending = load_corpus_headers()
         while len(headers) < want:
-            h = gen_header(rng)
+            h = pending.pop(0) if pending else gen_header(rng)
             hs = render_header(h, hr)
             try:  # the def statement must execute: typing rejects some nestings (Final inside Tuple[...], ...)
                 with warnings.catch_warnings():
@@ -780,7 +866,7 @@ def run(tier: str, replay: str | None = None):
         for x in walk(e):
             bump("constructors", x[0])
         clauses = guard_clauses(e)
-        bump("guard", "+".join(clauses) or "inside-guard")
+        bump("guard", "+".join(form_tags(e)) or "plain")
         if r["rt"][0] == "evalfail":
             bump("route_verdict", "not-evaluable")
             continue
@@ -795,7 +881,7 @@ def run(tier: str, replay: str | None = None):
         if agree:
             bump("route_verdict", "routes-agree")
         else:
-            fids = {"has_star_unpack": "C13-star-unpack-three-ways", "has_nested_literal": "C13-nested-literal-ast-route", "has_final_classvar": "C13-final-classvar-ast-route"}
+            fids = {"has_star_unpack": "C13-star-unpack-three-ways"}
             known = [fids[c] for c in clauses if fids[c] in findings_text]
             if known and model_agrees:
                 bump("route_verdict", "known-finding")
@@ -851,7 +937,7 @@ def run(tier: str, replay: str | None = None):
         elif exotic and model_agrees:
             bump("sig_verdict", "known-finding")
             for c in set(sum([guard_clauses(p[3]) for p in ps if p[3] is not None], [])):
-                fid = {"has_star_unpack": "C13-star-unpack-three-ways", "has_nested_literal": "C13-nested-literal-ast-route", "has_final_classvar": "C13-final-classvar-ast-route"}[c]
+                fid = {"has_star_unpack": "C13-star-unpack-three-ways"}[c]
                 if fid in findings_text:
                     rep.known(fid, findings_text[fid])
         else:
@@ -870,9 +956,26 @@ def run(tier: str, replay: str | None = None):
         try:
             sel = list(range(len(headers)))[: (60 if quick else 400)]
             calls, res = impl_calls([hsrc[i] for i in sel], rng, d, f"{lib.seed()}_{tier}")
+            mcalls = None
+            if model_ok:
+                try:
+                    mcalls = model_calls(headers, [(headers[sel[j]], a) for j, a in calls])
+                except RuntimeError as ex:
+                    rep.violation({"kind": "broken-correspondence", "correspondence": "Annot.Calls evaluation failed", "detail": str(ex)[-1500:]}, no_failing_input=True)
             for ci, (j, a) in enumerate(calls):
                 n_calls += 1
                 h = headers[sel[j]]
+                if mcalls is not None:
+                    m_def, m_rt = mcalls[ci]
+                    i_def = "incompatible_call" not in res["nested"][ci]
+                    i_rt = "incompatible_call" not in res["imported"][ci]
+                    if (bool(m_def), bool(m_rt)) == (i_def, i_rt):
+                        validated += 1
+                        bump("call_verdict", f"model:def={'binds' if m_def else 'rejected'},importer={'binds' if m_rt else 'rejected'}")
+                    else:
+                        corr.append(({"header": jsonable(h), "source": f"def m({hsrc[sel[j]][0]}){hsrc[sel[j]][1]}; m({a})"},
+                                     {"nested_def": res["nested"][ci], "imported": res["imported"][ci]}, {"def_binds": bool(m_def), "importer_binds": bool(m_rt)},
+                                     "Calls.call_in_defining_scope/call_from_importer vs incompatible_call on the call"))
                 trio = (res["inmod"][ci], res["imported"][ci], res["nested"][ci])
                 src = f"def m({hsrc[sel[j]][0]}){hsrc[sel[j]][1]}; m({a})"
                 if trio[0] == trio[1] == trio[2]:
@@ -901,7 +1004,9 @@ def run(tier: str, replay: str | None = None):
     if corr and not failing:
         inp, obs, mod, name = corr[0]
         rep.violation({"kind": "broken-correspondence", "correspondence": name, "input": inp, "observed": obs, "model": mod, "mismatches": len(corr)}, no_failing_input=True)
-    if not proof.ok and not failing:
+    if broken_translation and not failing:
+        rep.violation({"kind": "broken-obligation", "theorem": "Gen/Annot.v (translator)", "detail": broken_translation}, no_failing_input=True)
+    if proof is not None and not proof.ok and not failing:
         rep.violation({"kind": "broken-obligation", "theorem": "; ".join(proof.broken), "log": proof.log[-1500:]}, no_failing_input=True)
 
     rep.coverage.update(
